@@ -343,6 +343,10 @@ func (c *caseRun) doStep(a string, before, after Abs) {
 		if err := c.st.RemoveQ4(c.ctx, heightH, b.Hash); err != nil {
 			c.harness("RemoveQ4: %v", err)
 		}
+	case "RemoveODSQ4":
+		if err := c.st.RemoveODSQ4(c.ctx, heightH, b.Hash); err != nil {
+			c.harness("RemoveODSQ4: %v", err)
+		}
 	case "EvictRecent":
 		ev := evictionBlocks()[0]
 		if err := c.st.PutODS(c.ctx, ev.Roots, heightEvR, ev.EDS); err != nil {
@@ -760,6 +764,16 @@ func TestDriver(t *testing.T) {
 		cases = nil
 		for _, e := range in.Edges {
 			cases = append(cases, &caseDef{ID: len(cases), Kind: "replay", Edge: e, Layout: l, Seed: r.Seed, Extras: true})
+		}
+	}
+	if vh.Env("VERIF_SELFTEST", "") != "" {
+		// self-test of the binding: predict the opposite side for the lower half everywhere; the
+		// comparison with the real outcome has to notice (reported as conformance drift)
+		for _, e := range in.Edges {
+			for _, o := range []*ObsPred{&e.Pred.Store.Obs, &e.Pred.Cached.Obs, &e.Pred.Store2.Obs, &e.Pred.Held.Obs, &e.Pred.Byhash.Obs} {
+				o.LowerRowPar, o.LowerColPar = !o.LowerRowPar, !o.LowerColPar
+			}
+			e.Pred.Has = !e.Pred.Has
 		}
 	}
 	rng.Shuffle(len(cases), func(i, j int) { cases[i], cases[j] = cases[j], cases[i] })
